@@ -11,6 +11,7 @@ import (
 	"math"
 	"net/http"
 	"net/http/httptest"
+	"reflect"
 	"regexp"
 	"runtime"
 	"sort"
@@ -33,9 +34,29 @@ const c17Dim = 128
 
 type c17Space struct{ next int }
 
+// c17Quiet ends the running case without a verdict (harness-side limit reached: basis dimensions used up,
+// host too slow for the designed clock margins). Caught by c17Quietly / c17Sub and counted.
+type c17Quiet struct{ why string }
+
+func c17Quietly(ctx *vkit.Ctx, fn func(cs *vkit.Case)) func(cs *vkit.Case) {
+	return func(cs *vkit.Case) {
+		defer func() {
+			if r := recover(); r != nil {
+				if q, ok := r.(c17Quiet); ok {
+					ctx.Count("case.abandoned."+q.why, 1)
+					return
+				}
+				panic(r)
+			}
+		}()
+		fn(cs)
+	}
+}
+
 func (s *c17Space) basis() []float32 {
 	if s.next >= c17Dim {
-		panic("c17: out of basis dimensions (harness bug)")
+		// harness-side limit, not a verdict: the case ends here (counted as case.abandoned.*)
+		panic(c17Quiet{"out_of_basis_dimensions"})
 	}
 	v := make([]float32, c17Dim)
 	v[s.next] = 1
@@ -223,44 +244,56 @@ type c17Opts struct {
 	Tc           float64
 	TTL          time.Duration
 
-	RAG     bool
-	RAGTopK int
+	RAG          bool
+	RAGTopK      int
+	RAGThreshold float64
+
+	// operator-created indexes stored with half precision (the engine offers it for the euclidean metric only);
+	// the quantisation error (< 0.003 on these distances) is far inside the factor-2 margins of the design
+	FwF16, CacheF16 bool
 }
 
 func (o c17Opts) String() string {
-	return fmt.Sprintf("fw=%v deny=%q fwMetric=%s Tf=%g fwIdx=%v cache=%v cacheMetric=%s cacheLang=%q Tc=%g ttl=%s rag=%v topk=%d",
-		o.FirewallEnabled, o.Deny, o.FwMetric, o.Tf, o.FwIndexCreated, o.CacheEnabled, o.CacheMetric, o.CacheLang, o.Tc, o.TTL, o.RAG, o.RAGTopK)
+	return fmt.Sprintf("fw=%v deny=%q fwMetric=%s Tf=%g fwIdx=%v cache=%v cacheMetric=%s cacheLang=%q Tc=%g ttl=%s rag=%v topk=%d ragThreshold=%g fwF16=%v cacheF16=%v",
+		o.FirewallEnabled, o.Deny, o.FwMetric, o.Tf, o.FwIndexCreated, o.CacheEnabled, o.CacheMetric, o.CacheLang, o.Tc, o.TTL, o.RAG, o.RAGTopK, o.RAGThreshold, o.FwF16, o.CacheF16)
 }
 
 type c17Stored struct {
-	ID  string
-	Vec []float32
+	ID      string
+	Vec     []float32
+	Deleted bool // removed from the index again (VDelete)
 }
 
 type c17Entry struct {
-	ID      string // cache index id ("" if the save was never observed)
-	Vec     []float32
-	Body    string
-	Fresh   bool // designed: created_at well inside the TTL (true) or well outside (false)
-	Sources []string
-	Removed bool // invalidated by the model
-	Planted bool
+	ID   string // cache index id ("" if the save was never observed)
+	Vec  []float32
+	Body string
+	// created_at of the entry lies in [CreatedLo, CreatedHi] (harness clock samples taken around the write);
+	// whether the entry is younger than the TTL is decided per request with margins (ageClass), never assumed.
+	CreatedLo, CreatedHi time.Time
+	Sources              []string // the documents the answer cites: for a real-flow entry the chunks whose text was sent to the upstream
+	Stored               []string // what the entry's own `sources` metadata says (diagnostics only)
+	Removed              bool     // invalidated by the model
+	Planted              bool
+	// Maybe: an entry the gateway saved for a request whose answer the check does not require to be cached
+	// (streaming / task-marker request). A later request near it may be served from it or forwarded.
+	Maybe bool
 }
 
 type c17Rig struct {
-	ctx  *vkit.Ctx
-	cs   *vkit.Case
-	o    c17Opts
-	eng  *engine.Engine
-	p    *AIProxy
-	cfg  Config
+	ctx      *vkit.Ctx
+	cs       *vkit.Case
+	o        c17Opts
+	eng      *engine.Engine
+	p        *AIProxy
+	cfg      Config
 	upstream http.Handler
-	upN  atomic.Int64
-	upMu sync.Mutex
-	upBy map[int64]string // nonce -> body the upstream returned
-	upRq map[int64]string // nonce -> request body the upstream received
-	emb  *c17Emb
-	sp   *c17Space
+	upN      atomic.Int64
+	upMu     sync.Mutex
+	upBy     map[int64]string // nonce -> body the upstream returned
+	upRq     map[int64]string // nonce -> request body the upstream received
+	emb      *c17Emb
+	sp       *c17Space
 
 	denyRe    []*regexp.Regexp // reference matcher (independent compile)
 	forbidden []c17Stored
@@ -270,6 +303,10 @@ type c17Rig struct {
 	missSeen  int
 	seq       int
 	failf     func(format string, a ...any) // cs.Fail in the groups; a collecting abort in probes
+
+	upMode      string   // how the stub upstream answers the next request: "" (small body) | "big" (> 64 KB, relayed in several Writes)
+	suspectDocs []string // document ids on which an entry's stored sources and the chunks actually sent upstream disagree
+	llmCalls    int      // calls received by the stub LLM (always failing) of RAG worlds
 }
 
 var c17RigSeq atomic.Int64
@@ -294,6 +331,18 @@ func c17NewRig(ctx *vkit.Ctx, cs *vkit.Case, o c17Opts) *c17Rig {
 		rb, _ := io.ReadAll(r.Body)
 		n := g.upN.Add(1)
 		body := fmt.Sprintf(`{"id":"up-%d","model":"stub","choices":[{"index":0,"message":{"role":"assistant","content":"answer #%d nonce=%08x"}}]}`, n, n, uint32(n*2654435761))
+		if g.upMode == "big" {
+			// an answer the reverse proxy relays in several Write calls (its copy buffer is 32 KB); every
+			// 1000-byte block is distinct, so a stored response that lost, repeated or reordered a chunk differs
+			var sb strings.Builder
+			sb.WriteString(fmt.Sprintf(`{"id":"up-%d","model":"stub","choices":[{"index":0,"message":{"role":"assistant","content":"long answer #%d`, n, n))
+			for i, blocks := 0, 70+int(n%5)*40; i < blocks; i++ {
+				sb.WriteString(fmt.Sprintf(" [%06d:%08x]", i, uint32((n*1000003+int64(i))*2654435761)))
+				sb.WriteString(strings.Repeat("x", 980))
+			}
+			sb.WriteString(`"}}]}`)
+			body = sb.String()
+		}
 		g.upMu.Lock()
 		g.upBy[n] = body
 		g.upRq[n] = string(rb)
@@ -330,7 +379,7 @@ func c17NewRig(ctx *vkit.Ctx, cs *vkit.Case, o c17Opts) *c17Rig {
 	cfg.RAGEnabled = o.RAG
 	cfg.RAGIndex = c17RAGIndex
 	cfg.RAGTopK = o.RAGTopK
-	cfg.RAGThreshold = 0
+	cfg.RAGThreshold = float32(o.RAGThreshold)
 	cfg.RAGUseGraph = false
 	cfg.RAGUseHybrid = false
 	cfg.RAGUseHyDe = false
@@ -346,20 +395,44 @@ func c17NewRig(ctx *vkit.Ctx, cs *vkit.Case, o c17Opts) *c17Rig {
 	}
 	g.p = p
 	p.reverseProxy.Transport = c17Transport{g.upstream}
+	if o.RAG {
+		// the query rewriter's LLM is down in every RAG world (no network in the check): a multi-message
+		// history makes the gateway try a rewrite, fail, and go on with the latest user message
+		p.fastLLMClient = c17DownLLM{g}
+	}
 
 	for _, pat := range o.Deny {
 		g.denyRe = append(g.denyRe, regexp.MustCompile("(?i)"+pat))
 	}
 	if o.FwIndexCreated {
-		g.must(e.VCreate(c17FwIndex, o.FwMetric, 16, 200, distance.Float32, "", nil, nil, nil), "create firewall index")
+		g.must(e.VCreate(c17FwIndex, o.FwMetric, 16, 200, c17Prec(o.FwF16 && o.FwMetric == distance.Euclidean), "", nil, nil, nil), "create firewall index")
 	}
 	if o.CacheLang != "" {
-		g.must(e.VCreate(c17CacheIndex, o.CacheMetric, 16, 200, distance.Float32, o.CacheLang, nil, nil, nil), "pre-create cache index")
+		g.must(e.VCreate(c17CacheIndex, o.CacheMetric, 16, 200, c17Prec(o.CacheF16 && o.CacheMetric == distance.Euclidean), o.CacheLang, nil, nil, nil), "pre-create cache index")
 	}
 	if o.RAG {
 		g.must(e.VCreate(c17RAGIndex, distance.Cosine, 16, 200, distance.Float32, "", nil, nil, nil), "create rag index")
 	}
 	return g
+}
+
+type c17DownLLM struct{ g *c17Rig }
+
+func (l c17DownLLM) Chat(systemPrompt, userQuery string) (string, error) {
+	l.g.llmCalls++
+	return "", fmt.Errorf("stub llm: connection refused")
+}
+
+func (l c17DownLLM) ChatWithImages(systemPrompt, userQuery string, images [][]byte) (string, error) {
+	l.g.llmCalls++
+	return "", fmt.Errorf("stub llm: connection refused")
+}
+
+func c17Prec(half bool) distance.PrecisionType {
+	if half {
+		return distance.Float16
+	}
+	return distance.Float32
 }
 
 func (g *c17Rig) must(err error, what string) {
@@ -376,6 +449,14 @@ func (t c17Transport) RoundTrip(req *http.Request) (*http.Response, error) {
 	if req.Body != nil {
 		body, _ = io.ReadAll(req.Body)
 		req.Body.Close()
+	}
+	// What net/http's Transport does with such a request ("http: ContentLength=%d with Body length %d"): a
+	// gateway that replaces the body without adjusting the length does not reach a real upstream.
+	if req.ContentLength >= 0 && req.ContentLength != int64(len(body)) {
+		return nil, fmt.Errorf("http: ContentLength=%d with Body length %d", req.ContentLength, len(body))
+	}
+	if cl := req.Header.Get("Content-Length"); cl != "" && cl != fmt.Sprint(len(body)) && req.ContentLength < 0 {
+		return nil, fmt.Errorf("http: Content-Length header %q with Body length %d", cl, len(body))
 	}
 	sr := httptest.NewRequest(req.Method, req.URL.String(), bytes.NewReader(body))
 	sr.Header = req.Header.Clone()
@@ -409,11 +490,49 @@ func (g *c17Rig) ensureCacheIndex() {
 	g.must(g.eng.VCreate(c17CacheIndex, distance.Cosine, 16, 200, distance.Float32, "", nil, nil, nil), "create cache index like saveToCache")
 }
 
+func c17Unit(v []float32) []float32 {
+	var n float64
+	for _, x := range v {
+		n += float64(x) * float64(x)
+	}
+	n = math.Sqrt(n)
+	if n == 0 || math.Abs(n-1) < 1e-6 {
+		return v
+	}
+	out := make([]float32, len(v))
+	for i, x := range v {
+		out[i] = float32(float64(x) / n)
+	}
+	return out
+}
+
 func (g *c17Rig) addForbidden(v []float32) {
-	id := fmt.Sprintf("bad_%d", len(g.forbidden))
+	g.addForbiddenAs(fmt.Sprintf("bad_%d", len(g.forbidden)), v)
+}
+
+func (g *c17Rig) addForbiddenAs(id string, v []float32) {
 	g.cs.Op("firewall index += %s", id)
 	g.must(g.eng.VAdd(c17FwIndex, id, v, map[string]any{"text": "forbidden prompt " + id}), "add forbidden prompt")
 	g.forbidden = append(g.forbidden, c17Stored{ID: id, Vec: v})
+}
+
+// deleteForbidden removes stored forbidden prompt i from the index again: from then on only the remaining
+// ones count ("within the configured distance of a STORED forbidden prompt").
+func (g *c17Rig) deleteForbidden(i int) {
+	g.cs.Op("firewall index -= %s", g.forbidden[i].ID)
+	g.must(g.eng.VDelete(c17FwIndex, g.forbidden[i].ID), "delete forbidden prompt")
+	g.forbidden[i].Deleted = true
+}
+
+// liveForbidden lists the indexes (into g.forbidden) of the forbidden prompts currently stored.
+func (g *c17Rig) liveForbidden() []int {
+	var out []int
+	for i, f := range g.forbidden {
+		if !f.Deleted {
+			out = append(out, i)
+		}
+	}
+	return out
 }
 
 func (g *c17Rig) addChunk(id string, v []float32) {
@@ -422,17 +541,36 @@ func (g *c17Rig) addChunk(id string, v []float32) {
 	g.chunks = append(g.chunks, c17Stored{ID: id, Vec: v})
 }
 
+// Ages of planted entries, as multiples of the TTL. Fresh positions are at most TTL/2 (so at least 30 s
+// inside the shortest TTL used), old ones at least 1.5*TTL.
+const c17ClockMargin = 5 * time.Second
+
 // plant writes a cache entry through the engine in the format saveToCache writes.
-// ageOK=true: created now (well inside any TTL used); false: older than 2*TTL+10s.
+// fresh=true: created now or TTL/2 ago; false: 1.5*TTL ago or older than 2*TTL+10s.
 func (g *c17Rig) plant(vec []float32, body string, fresh bool, sources []string) *c17Entry {
+	var age time.Duration
+	if fresh {
+		if g.cs.R.Chance(0.4) {
+			age = g.o.TTL / 2
+		}
+	} else {
+		age = g.o.TTL + g.o.TTL/2
+		if g.cs.R.Chance(0.5) {
+			age = 2*g.o.TTL + 10*time.Second + time.Duration(g.cs.R.Intn(5))*g.o.TTL
+		}
+	}
+	return g.plantAged(vec, body, age, sources)
+}
+
+func (g *c17Rig) plantAged(vec []float32, body string, age time.Duration, sources []string) *c17Entry {
 	g.ensureCacheIndex()
 	g.seq++
-	id := fmt.Sprintf("cache_%d_%d", time.Now().UnixNano(), g.seq)
-	created := time.Now()
-	if !fresh {
-		created = created.Add(-(2*g.o.TTL + 10*time.Second + time.Duration(g.cs.R.Intn(5))*g.o.TTL))
+	now := time.Now()
+	id := fmt.Sprintf("cache_%d_%d", now.UnixNano(), g.seq)
+	created := now.Add(-age)
+	if len(g.entries) < 40 || g.seq%200 == 0 {
+		g.cs.Op("plant cache entry %s age=%s (ttl %s) sources=%q", id, age, g.o.TTL, sources)
 	}
-	g.cs.Op("plant cache entry %s fresh=%v sources=%q", id, fresh, sources)
 	meta := map[string]any{
 		"query":      "planted " + id,
 		"response":   body,
@@ -440,10 +578,28 @@ func (g *c17Rig) plant(vec []float32, body string, fresh bool, sources []string)
 		"sources":    strings.Join(sources, " "),
 	}
 	g.must(g.eng.VAdd(c17CacheIndex, id, vec, meta), "plant cache entry")
-	en := &c17Entry{ID: id, Vec: vec, Body: body, Fresh: fresh, Sources: sources, Planted: true}
+	en := &c17Entry{ID: id, Vec: vec, Body: body, CreatedLo: created, CreatedHi: created, Sources: sources, Stored: sources, Planted: true}
 	g.entries = append(g.entries, en)
 	return en
 }
+
+// ageClass decides "younger than the TTL" for entry en at harness time now: +1 decisively younger, -1
+// decisively older, 0 undecided. created_at is stored in whole seconds and the gateway reads its clock a
+// little later than the harness does; both are covered by the margin (requests that take longer than the
+// margin allows end the case without a verdict, see judge).
+func (g *c17Rig) ageClass(en *c17Entry, now time.Time) int {
+	ageMax := now.Sub(en.CreatedLo) + time.Second
+	ageMin := now.Sub(en.CreatedHi) - time.Second
+	if ageMax+c17ClockMargin < g.o.TTL {
+		return +1
+	}
+	if ageMin-c17ClockMargin > g.o.TTL {
+		return -1
+	}
+	return 0
+}
+
+func (g *c17Rig) fresh(en *c17Entry) bool { return g.ageClass(en, time.Now()) == +1 }
 
 func (g *c17Rig) cacheIDs() map[string]bool {
 	out := map[string]bool{}
@@ -468,6 +624,10 @@ func (g *c17Rig) cacheCount() int {
 	return info.VectorCount
 }
 
+// Any goroutine started by code of package proxy (a method of AIProxy today; a helper or worker function after
+// a refactoring). The check itself starts no goroutine from this package.
+const c17CreatedByProxy = "created by github.com/sanonone/kektordb/pkg/proxy."
+
 // c17Background reports whether a goroutine of the proxy's asynchronous cache work (save or
 // expired-entry cleanup) is still alive.
 func c17Background() (bool, string) {
@@ -484,7 +644,7 @@ func c17Background() (bool, string) {
 	// Every goroutine the gateway itself starts (go p.saveToCache(...) in ServeHTTP, the expired-entry
 	// cleanup in checkCache) carries a "created by …proxy.(*AIProxy).<fn>" line from the moment the go
 	// statement has executed, also before it has run its first instruction.
-	if strings.Contains(s, "created by github.com/sanonone/kektordb/pkg/proxy.(*AIProxy).") {
+	if strings.Contains(s, c17CreatedByProxy) {
 		return true, s
 	}
 	return false, ""
@@ -529,7 +689,7 @@ func (g *c17Rig) settle(wantCount int) {
 		if time.Since(start) > 120*time.Second {
 			state := ""
 			for _, gr := range strings.Split(dump, "\n\n") {
-				if strings.Contains(gr, "created by github.com/sanonone/kektordb/pkg/proxy.(*AIProxy).") {
+				if strings.Contains(gr, c17CreatedByProxy) {
 					if j := strings.Index(gr, "["); j >= 0 {
 						if k := strings.Index(gr[j:], "]"); k > 0 {
 							state = gr[j+1 : j+k]
@@ -553,24 +713,27 @@ func (g *c17Rig) settle(wantCount int) {
 // requests
 
 type c17Req struct {
-	Kind    string    // label of the scenario class
-	Text    string    // the latest user message
-	Vec     []float32 // designed embedding of Text (nil when Text == "")
-	Shape   string    // "messages" | "prompt"
-	Before  []message // messages before the latest user message
-	After   []message // assistant messages after it
-	Stream  bool
-	Path    string
-	Denied  bool // by construction: Text contains an instance of a deny pattern
-	Marker  bool // by construction: Text contains a task-marker phrase
-	NearFw  int  // index of the forbidden prompt it is designed near to, or -1
-	NearDoc string
+	Kind        string    // label of the scenario class
+	Text        string    // the latest user message
+	Vec         []float32 // designed embedding of Text (nil when Text == "")
+	Shape       string    // "messages" | "prompt"
+	Before      []message // messages before the latest user message
+	After       []message // assistant messages after it
+	Stream      bool
+	Path        string
+	Denied      bool // by construction: Text contains an instance of a deny pattern
+	Marker      bool // by construction: Text contains a task-marker phrase
+	NearFw      int  // index of the forbidden prompt it is designed near to, or -1
+	NearDoc     string
+	NoStreamKey bool // non-streaming request that carries an explicit "stream": false
 }
 
 func (q *c17Req) body() []byte {
 	m := map[string]any{"model": "stub-model"}
 	if q.Stream {
 		m["stream"] = true
+	} else if q.NoStreamKey {
+		m["stream"] = false // "a non-streaming request": said explicitly instead of by omission
 	}
 	if q.Shape == "prompt" {
 		m["prompt"] = q.Text
@@ -623,7 +786,7 @@ func (g *c17Rig) refDenied(text string) bool {
 }
 
 type c17Verdict struct {
-	Outcome string // "blocked" | "hit" | "forward"
+	Outcome string // "blocked" | "hit" | "forward" | "either" (hit from a Maybe entry, or forward) | "unjudged"
 	Why     string
 	Bodies  []string // acceptable bodies for a hit
 	MinFw   float64  // min distance to a forbidden prompt (+Inf if none)
@@ -641,6 +804,9 @@ func (g *c17Rig) reference(q *c17Req) c17Verdict {
 	semantic := false
 	if g.o.FirewallEnabled && q.Vec != nil {
 		for _, f := range g.forbidden {
+			if f.Deleted {
+				continue
+			}
 			d := c17Dist(g.o.FwMetric, q.Vec, f.Vec)
 			if d < v.MinFw {
 				v.MinFw = d
@@ -667,6 +833,8 @@ func (g *c17Rig) reference(q *c17Req) c17Verdict {
 	}
 	if g.o.CacheEnabled && q.Vec != nil {
 		cm := g.cacheMetric()
+		now := time.Now()
+		var maybe []string
 		for _, en := range g.entries {
 			if en.Removed {
 				continue
@@ -676,14 +844,26 @@ func (g *c17Rig) reference(q *c17Req) c17Verdict {
 			if cl == 0 {
 				g.failf("HARNESS BUG: undesigned cache distance %.6f (T=%g, %s) for %q vs entry %s", d, g.o.Tc, cm, q.Text, en.ID)
 			}
-			if cl == +1 && en.Fresh {
+			if cl != +1 {
+				continue
+			}
+			switch g.ageClass(en, now) {
+			case 0:
+				// the harness clock cannot tell any more whether this entry is younger than the TTL
+				v.Outcome, v.Why = "unjudged", "clock"
+				return v
+			case +1:
+				if en.Maybe {
+					maybe = append(maybe, en.Body)
+					continue
+				}
 				if d < v.MinCa {
 					v.MinCa = d
 				}
 				v.Bodies = append(v.Bodies, en.Body)
 			}
 		}
-		if len(v.Bodies) > 0 && !q.Stream {
+		if (len(v.Bodies) > 0 || len(maybe) > 0) && !q.Stream {
 			if q.Marker || q.Text == "" {
 				// the property's cache clause is not judged for pass-through prompts (see assumptions):
 				// the generator drops such a request, judge() refuses it
@@ -691,6 +871,11 @@ func (g *c17Rig) reference(q *c17Req) c17Verdict {
 				v.Why = "pass-through prompt within the cache distance of an entry"
 				return v
 			}
+			if len(v.Bodies) == 0 {
+				v.Outcome, v.Why, v.Bodies = "either", "entry-not-required", maybe
+				return v
+			}
+			v.Bodies = append(v.Bodies, maybe...)
 			v.Outcome = "hit"
 			v.Why = "cached"
 			return v
@@ -701,11 +886,21 @@ func (g *c17Rig) reference(q *c17Req) c17Verdict {
 	return v
 }
 
+func c17Trunc(s string, n int) string {
+	if len(s) > n {
+		return s[:n] + fmt.Sprintf("…(%d bytes)", len(s))
+	}
+	return s
+}
+
 // judge sends q, compares with the reference and updates the model. It returns the verdict
 // and the response.
 func (g *c17Rig) judge(q *c17Req) (c17Verdict, c17Resp) {
 	want := g.reference(q)
 	if want.Outcome == "unjudged" {
+		if want.Why == "clock" {
+			panic(c17Quiet{"clock_undecided"})
+		}
 		g.failf("HARNESS BUG: %s (kind=%s text=%q)", want.Why, q.Kind, q.Text)
 	}
 	idsBefore := map[string]bool{}
@@ -714,7 +909,13 @@ func (g *c17Rig) judge(q *c17Req) (c17Verdict, c17Resp) {
 		idsBefore = g.cacheIDs()
 		cntBefore = g.cacheCount()
 	}
+	tBefore := time.Now()
 	got := g.send(q)
+	if g.o.CacheEnabled && time.Since(tBefore) > c17ClockMargin-time.Second {
+		// the gateway may have read its clock up to that much later than the reference did: with entries at
+		// designed ages the verdict would depend on the host's speed. No verdict; the case ends.
+		panic(c17Quiet{"request_slower_than_clock_margin"})
+	}
 	if n := len(g.emb.misses); n > g.missSeen {
 		g.ctx.Count("embed.text_other_than_latest_user_message", int64(n-g.missSeen))
 		g.cs.Attach("gateway_embedded_other_texts", append([]string(nil), g.emb.misses...))
@@ -723,9 +924,20 @@ func (g *c17Rig) judge(q *c17Req) (c17Verdict, c17Resp) {
 	desc := fmt.Sprintf("kind=%s shape=%s stream=%v latest user message %q (min distance to forbidden=%.4g T=%g %s; min distance to fresh cache entry=%.4g T=%g)",
 		q.Kind, q.Shape, q.Stream, q.Text, want.MinFw, g.o.Tf, g.o.FwMetric, want.MinCa, g.o.Tc)
 	g.cs.Attach("last_request", map[string]any{"body": string(q.body()), "expected": want.Outcome + "/" + want.Why,
-		"status": got.Status, "x_kektor_cache": got.CacheHdr, "upstream_delta": got.UpDelta, "response": got.Body, "world": g.o.String()})
-	switch want.Outcome {
+		"status": got.Status, "x_kektor_cache": got.CacheHdr, "upstream_delta": got.UpDelta, "response": c17Trunc(got.Body, 2000), "world": g.o.String()})
+	outcome := want.Outcome
+	if outcome == "either" {
+		// a fresh entry within the cache distance exists that the check does not require (the gateway chose to
+		// store the answer to a streaming / task request): serving it and forwarding both satisfy the property
+		if got.CacheHdr == "HIT" {
+			outcome = "hit"
+		} else {
+			outcome = "forward"
+		}
+	}
+	switch outcome {
 	case "blocked":
+		// clause: "... is refused and never reaches the upstream model"
 		if got.UpDelta != 0 {
 			g.failf("firewall: request that must be refused (%s) reached the upstream model (%d upstream request(s), status %d): %s", want.Why, got.UpDelta, got.Status, desc)
 		}
@@ -733,12 +945,16 @@ func (g *c17Rig) judge(q *c17Req) (c17Verdict, c17Resp) {
 			g.failf("firewall: request that must be refused (%s) was answered with status %d (X-Kektor-Cache=%q) instead of a 4xx: %s", want.Why, got.Status, got.CacheHdr, desc)
 		}
 	case "hit":
+		// clause: "... is answered with that stored response without contacting upstream"
 		if got.UpDelta != 0 {
 			g.cs.Attach("cache_index_at_miss", g.cacheDiag(q))
 			g.failf("cache: request within the cache distance of a previously answered one contacted the upstream (%d request(s), status %d, X-Kektor-Cache=%q): %s", got.UpDelta, got.Status, got.CacheHdr, desc)
 		}
 		if got.CacheHdr != "HIT" {
 			g.failf("cache: expected X-Kektor-Cache: HIT, got %q (status %d): %s", got.CacheHdr, got.Status, desc)
+		}
+		if got.Status != 200 {
+			g.failf("cache: the stored response was delivered with status %d instead of 200: %s", got.Status, desc)
 		}
 		ok := false
 		for _, b := range want.Bodies {
@@ -747,59 +963,210 @@ func (g *c17Rig) judge(q *c17Req) (c17Verdict, c17Resp) {
 			}
 		}
 		if !ok {
-			g.failf("cache: HIT body %q is not the stored response of an entry within the cache distance (acceptable: %q): %s", got.Body, want.Bodies, desc)
+			var acc []string
+			for _, b := range want.Bodies {
+				acc = append(acc, c17Trunc(b, 300))
+			}
+			g.failf("cache: HIT body (%d bytes) %q is not the stored response of an entry within the cache distance (acceptable: %q): %s", len(got.Body), c17Trunc(got.Body, 300), acc, desc)
 		}
 	case "forward":
+		// clauses: "a message matching no pattern and far from every forbidden prompt is forwarded",
+		// "a request farther than that from every stored query always reaches upstream"
 		if got.CacheHdr == "HIT" {
-			g.failf("cache: request that must reach the upstream was served from the cache (body %q): %s", got.Body, desc)
+			g.failf("cache: request that must reach the upstream was served from the cache (body %q): %s", c17Trunc(got.Body, 300), desc)
 		}
-		if got.UpDelta != 1 {
-			g.failf("request that must be forwarded produced %d upstream requests (status %d): %s", got.UpDelta, got.Status, desc)
+		if got.UpDelta < 1 {
+			g.failf("request that must be forwarded produced %d upstream requests (status %d, body %q): %s", got.UpDelta, got.Status, c17Trunc(got.Body, 300), desc)
 		}
 		g.upMu.Lock()
-		upBody := g.upBy[got.UpNonce]
+		relayed := false
+		var upBody, upReq string
+		for n := got.UpNonce - got.UpDelta + 1; n <= got.UpNonce; n++ {
+			if g.upBy[n] == got.Body {
+				relayed, upBody, upReq = true, g.upBy[n], g.upRq[n]
+			}
+		}
+		if !relayed {
+			upBody, upReq = g.upBy[got.UpNonce], g.upRq[got.UpNonce]
+		}
 		g.upMu.Unlock()
-		if got.Status != 200 || got.Body != upBody {
-			g.failf("forwarded request did not return the upstream's answer (status %d body %q, upstream sent %q): %s", got.Status, got.Body, upBody, desc)
+		if got.Status != 200 || !relayed {
+			g.failf("forwarded request did not return the upstream's answer (status %d body (%d bytes) %q, upstream sent (%d bytes) %q): %s", got.Status, len(got.Body), c17Trunc(got.Body, 300), len(upBody), c17Trunc(upBody, 300), desc)
+		}
+		if msg := g.forwardedIntact(q, upReq); msg != "" {
+			g.cs.Attach("upstream_received", c17Trunc(upReq, 4000))
+			g.failf("the request that reached the upstream is not the client's request: %s: %s", msg, desc)
 		}
 	}
 	// model update + wait for the asynchronous save
 	if g.o.CacheEnabled {
-		cacheable := want.Outcome == "forward" && !q.Stream && !q.Marker && q.Text != ""
+		cacheable := outcome == "forward" && !q.Stream && !q.Marker && q.Text != ""
 		if cacheable {
 			g.settle(cntBefore + 1)
-			en := &c17Entry{Vec: q.Vec, Body: got.Body, Fresh: true}
-			var fresh []string
-			for id := range g.cacheIDs() {
-				if !idsBefore[id] {
-					fresh = append(fresh, id)
-				}
+		} else {
+			g.settle(-1)
+		}
+		tAfter := time.Now()
+		var fresh []string
+		for id := range g.cacheIDs() {
+			if !idsBefore[id] {
+				fresh = append(fresh, id)
 			}
-			sort.Strings(fresh)
-			if len(fresh) == 1 {
+		}
+		sort.Strings(fresh)
+		if cacheable {
+			// "previously answered": from now on a request within the cache distance must be served this answer
+			en := &c17Entry{Vec: q.Vec, Body: got.Body, CreatedLo: tBefore, CreatedHi: tAfter}
+			if len(fresh) >= 1 {
 				en.ID = fresh[0]
 				if d, err := g.eng.VGet(c17CacheIndex, en.ID); err == nil {
 					if s, ok := d.Metadata["sources"].(string); ok {
-						en.Sources = strings.Fields(s)
+						en.Stored = strings.Fields(s)
 					}
 				}
-			} else if len(fresh) > 1 {
-				g.failf("one answered request created %d cache entries %v", len(fresh), fresh)
+			}
+			en.Sources = en.Stored
+			if g.o.RAG {
+				g.upMu.Lock()
+				upReq := g.upRq[got.UpNonce]
+				g.upMu.Unlock()
+				// "cached answers that cite it": the answer was produced from the chunks whose text the upstream was sent
+				en.Sources = c17InjectedChunks(upReq)
+				if diff := c17SetDiff(en.Sources, en.Stored); len(diff) > 0 && en.ID != "" {
+					g.ctx.Count("invalidate.stored_sources_differ_from_injected", 1)
+					g.cs.Op("entry %s: stored sources %q, chunks sent upstream %q", en.ID, en.Stored, en.Sources)
+					g.cs.Attach("sources_mismatch", map[string]any{"entry": en.ID, "stored_sources": en.Stored, "chunks_sent_upstream": en.Sources})
+					g.suspectDocs = append(g.suspectDocs, diff...)
+				}
 			}
 			g.entries = append(g.entries, en)
-		} else {
-			g.settle(-1)
+			// further entries created by the same answer (same query vector, same body) are modelled too
+			for _, id := range fresh[min(1, len(fresh)):] {
+				g.ctx.Count("cache.extra_entry_for_one_answer", 1)
+				g.entries = append(g.entries, &c17Entry{ID: id, Vec: q.Vec, Body: got.Body, CreatedLo: tBefore, CreatedHi: tAfter, Sources: en.Sources, Stored: en.Stored})
+			}
+		} else if outcome == "forward" && q.Vec != nil {
+			// the check does not require this answer to be cached; if the gateway stored it nevertheless, later
+			// requests near it may be served from it (the property allows that: it was "previously answered")
+			for _, id := range fresh {
+				d, err := g.eng.VGet(c17CacheIndex, id)
+				if err != nil {
+					continue
+				}
+				body, _ := d.Metadata["response"].(string)
+				g.ctx.Count("cache.entry_not_required", 1)
+				g.entries = append(g.entries, &c17Entry{ID: id, Vec: q.Vec, Body: body, CreatedLo: tBefore, CreatedHi: tAfter, Maybe: true})
+			}
 		}
 	}
 	return want, got
 }
 
+// forwardedIntact compares what the upstream received with what the client sent ("is forwarded" / "reaches
+// upstream": the upstream must get the client's request). Without RAG the two must be the same JSON document;
+// with RAG the gateway rewrites the last message by design, so only the presence of the latest user message is
+// required. Returns "" when fine.
+func (g *c17Rig) forwardedIntact(q *c17Req, upReq string) string {
+	var sent, rcvd any
+	if err := json.Unmarshal(q.body(), &sent); err != nil {
+		return ""
+	}
+	if err := json.Unmarshal([]byte(upReq), &rcvd); err != nil {
+		return fmt.Sprintf("the upstream received %d bytes that are not a JSON document (%v)", len(upReq), err)
+	}
+	if !g.o.RAG {
+		if !reflect.DeepEqual(sent, rcvd) {
+			return "the JSON document the upstream received differs from the one the client sent"
+		}
+		return ""
+	}
+	if q.Text != "" && !strings.Contains(c17LastContent(rcvd), q.Text) {
+		return "the latest user message is missing from the prompt / last message the upstream received"
+	}
+	return ""
+}
+
+// c17LastContent is the text the upstream model is asked to answer: `prompt`, or the content of the last message.
+func c17LastContent(doc any) string {
+	m, _ := doc.(map[string]any)
+	if p, ok := m["prompt"].(string); ok {
+		return p
+	}
+	msgs, _ := m["messages"].([]any)
+	for i := len(msgs) - 1; i >= 0; i-- {
+		mm, _ := msgs[i].(map[string]any)
+		if role, _ := mm["role"].(string); role == "user" {
+			c, _ := mm["content"].(string)
+			return c
+		}
+	}
+	return ""
+}
+
+// c17InjectedChunks lists the ids of the RAG chunks whose text ("content of <id>", one per line, see addChunk)
+// is part of the request the upstream received.
+func c17InjectedChunks(upReq string) []string {
+	var doc any
+	if json.Unmarshal([]byte(upReq), &doc) != nil {
+		return nil
+	}
+	seen := map[string]bool{}
+	var out []string
+	var all strings.Builder
+	if m, ok := doc.(map[string]any); ok {
+		if p, ok := m["prompt"].(string); ok {
+			all.WriteString(p + "\n")
+		}
+		msgs, _ := m["messages"].([]any)
+		for _, x := range msgs {
+			if mm, ok := x.(map[string]any); ok {
+				if c, ok := mm["content"].(string); ok {
+					all.WriteString(c + "\n")
+				}
+			}
+		}
+	}
+	for _, line := range strings.Split(all.String(), "\n") {
+		if id, ok := strings.CutPrefix(line, "content of "); ok && !seen[id] {
+			seen[id] = true
+			out = append(out, id)
+		}
+	}
+	sort.Strings(out)
+	return out
+}
+
+// c17SetDiff returns the symmetric difference of two id lists.
+func c17SetDiff(a, b []string) []string {
+	in := func(x string, l []string) bool {
+		for _, y := range l {
+			if x == y {
+				return true
+			}
+		}
+		return false
+	}
+	var out []string
+	for _, x := range a {
+		if !in(x, b) {
+			out = append(out, x)
+		}
+	}
+	for _, x := range b {
+		if !in(x, a) {
+			out = append(out, x)
+		}
+	}
+	return out
+}
+
 // invalidate posts /cache/invalidate and checks the index content: exactly the entries that
-// cite doc (doc is one of the space-separated source ids) are gone.
+// cite doc are gone.
 func (g *c17Rig) invalidate(doc string) (cited, kept int) {
 	b, _ := json.Marshal(map[string]string{"document_id": doc})
 	g.cs.Op("POST /cache/invalidate %s", string(b))
 	present := g.cacheIDs()
+	now := time.Now()
 	r := httptest.NewRequest("POST", "/cache/invalidate", bytes.NewReader(b))
 	w := httptest.NewRecorder()
 	g.p.ServeHTTP(w, r)
@@ -819,14 +1186,15 @@ func (g *c17Rig) invalidate(doc string) (cited, kept int) {
 			cited++
 			if after[en.ID] {
 				g.cs.Attach("invalidate_response", w.Body.String())
-				g.failf("invalidation of document %q left cache entry %s (sources %q) in the cache index (response: %s)", doc, en.ID, en.Sources, strings.TrimSpace(w.Body.String()))
+				g.failf("invalidation of document %q left cache entry %s (cites %q, stored sources %q) in the cache index (response: %s)", doc, en.ID, en.Sources, en.Stored, strings.TrimSpace(w.Body.String()))
 			}
 			en.Removed = true
-		} else if en.Fresh {
+		} else if g.ageClass(en, now) == +1 {
+			// (an expired entry may legitimately disappear at any time: the gateway cleans up lazily)
 			kept++
 			if !after[en.ID] {
 				g.cs.Attach("invalidate_response", w.Body.String())
-				g.failf("invalidation of document %q removed cache entry %s which does not cite it (sources %q) (response: %s)", doc, en.ID, en.Sources, strings.TrimSpace(w.Body.String()))
+				g.failf("invalidation of document %q removed cache entry %s which does not cite it (cites %q, stored sources %q) (response: %s)", doc, en.ID, en.Sources, en.Stored, strings.TrimSpace(w.Body.String()))
 			}
 		}
 	}
@@ -846,9 +1214,12 @@ func (g *c17Rig) cacheDiag(q *c17Req) map[string]any {
 	out["engine_top10"] = l
 	var ents []string
 	cm := g.cacheMetric()
-	for _, en := range g.entries {
+	for i, en := range g.entries {
+		if i >= 64 {
+			break
+		}
 		_, gerr := g.eng.VGet(c17CacheIndex, en.ID)
-		ents = append(ents, fmt.Sprintf("%s removed=%v fresh=%v dist=%.4g vget_err=%v", en.ID, en.Removed, en.Fresh, c17Dist(cm, q.Vec, en.Vec), gerr))
+		ents = append(ents, fmt.Sprintf("%s removed=%v fresh=%v dist=%.4g vget_err=%v", en.ID, en.Removed, g.fresh(en), c17Dist(cm, q.Vec, en.Vec), gerr))
 	}
 	out["model_entries"] = ents
 	if idx, ok := g.eng.DB.GetVectorIndex(c17CacheIndex); ok {
@@ -856,6 +1227,9 @@ func (g *c17Rig) cacheDiag(q *c17Req) map[string]any {
 			var nodes []string
 			nm, _, _, entry, maxLevel, _, _, _, _, _ := h.SnapshotData()
 			for iid, n := range nm {
+				if len(nodes) >= 64 {
+					break
+				}
 				nodes = append(nodes, fmt.Sprintf("%d %s deleted=%v conns=%v", iid, n.Id, n.Deleted.Load(), n.Connections))
 			}
 			sort.Strings(nodes)
